@@ -44,4 +44,41 @@ theorem iri_octets (b : Text) (hb : ∀ c ∈ b, c < 256) (h : accepts .iri b = 
   simp only [symbols, Kind.isChar, if_true] at hs
   exact iri_octets_valid_full b w hs hm
 
+/-! ## component values (arguments of setters) -/
+
+/-- an accepted value of an IRI-family type, seen as octets, matches the transported production -/
+theorem iri_kind_octets (k : Kind) (hk : k.isChar = true) (b : Text) (hb : ∀ c ∈ b, c < 256)
+    (h : accepts k b = true) : Matches (encRE k.spec) b := by
+  obtain ⟨w, hs, hm⟩ := spec_of_accepts k b hb h
+  simp only [symbols, hk, if_true] at hs
+  have hsc := utf8Decode_scalars b w hs
+  have := matches_enc hm (fun c hc => by have := hsc c hc; unfold IsScalar at this; omega)
+  rwa [utf8Encode_decode b w hs] at this
+
+theorem iriGB_query : iriGB.query = encRE Rfc3987.iquery := rfl
+theorem iriGB_fragment : iriGB.fragment = encRE Rfc3987.ifragment := rfl
+
+theorem iriGB_authority : iriGB.authority = encRE Rfc3987.iauthority := by
+  have hp : encRE Rfc3986.port = Rfc3986.port := encRE_ascii _ (by decide)
+  simp only [Grammar.authority, iriGB, encG, iriG, Rfc3987.iauthority, seqs, opt, encRE, hp]
+  rfl
+
+theorem iriGB_path : iriGB.path = encRE Rfc3987.ipath := by
+  simp only [Grammar.path, Grammar.pathAbempty, Grammar.pathAbsolute, Grammar.pathNoscheme,
+    Grammar.pathRootless, Grammar.pathEmpty, iriGB, encG, iriG, Rfc3987.ipath, Rfc3987.ipathAbempty,
+    Rfc3987.ipathAbsolute, Rfc3987.ipathNoscheme, Rfc3987.ipathRootless, Rfc3987.ipathEmpty, alts, opt, encRE]
+  rfl
+
+theorem iriQuery_octets (b : Text) (hb : ∀ c ∈ b, c < 256) (h : accepts .iriQuery b = true) :
+    Matches iriGB.query b := iriGB_query ▸ iri_kind_octets .iriQuery rfl b hb h
+
+theorem iriFragment_octets (b : Text) (hb : ∀ c ∈ b, c < 256) (h : accepts .iriFragment b = true) :
+    Matches iriGB.fragment b := iriGB_fragment ▸ iri_kind_octets .iriFragment rfl b hb h
+
+theorem iriAuthority_octets (b : Text) (hb : ∀ c ∈ b, c < 256) (h : accepts .iriAuthority b = true) :
+    Matches iriGB.authority b := iriGB_authority ▸ iri_kind_octets .iriAuthority rfl b hb h
+
+theorem iriPath_octets (b : Text) (hb : ∀ c ∈ b, c < 256) (h : accepts .iriPath b = true) :
+    Matches iriGB.path b := iriGB_path ▸ iri_kind_octets .iriPath rfl b hb h
+
 end IrefVerif.Props.Valid
